@@ -220,7 +220,8 @@ PROPS = {
                 "The tested commit is the root, a child with one comment or a child with an empty pack; an altered commit keeps its signature and changes the tree, the parent or the date; mutators rotate keys in place in half of the same-size changes, and a key change that adds no version is a failure.",
         "assumptions": ["go-git stores/returns the signed bytes faithfully (the mock backend only signs the tree hash and is not used)"],
         "tests": [{"name": "TestC08Signatures", "quick": 500, "shards_quick": 2, "thorough": 3000, "shards": 16},
-                  {"name": "TestC08RotationDuringCommit", "quick": 100, "thorough": 1500, "shards": 4}],
+                  {"name": "TestC08RotationDuringCommit", "quick": 100, "thorough": 1500, "shards": 4},
+                  {"name": "TestC08UnreadableKey", "quick": 100, "thorough": 1500, "shards": 2}],
     },
     "C09": {
         "level": "exploration",
